@@ -636,7 +636,7 @@ func (n *nilAnalysis) evalRaw(v ssa.Value, at *ssa.BasicBlock, seen map[ssa.Valu
 			if n.nilDefaulted(x) {
 				return nilEval{kind: nkNever, raw: nkWithFail, label: "optional field " + lbl + " (defaulted when nil)"}
 			}
-			if n.fieldCheckedByProducer(x, at) {
+			if n.fieldCheckedByProducer(x, at) || n.fieldRequiredByValidator(x, at) {
 				return nilEval{kind: nkNever, raw: nkWithFail, label: "optional field " + lbl + " (required by the helper that produced the object)"}
 			}
 			return nilEval{kind: nkMaybe, raw: nkMaybe, label: "optional field " + lbl}
@@ -1142,6 +1142,112 @@ func (n *nilAnalysis) fieldCheckedByProducer(ld *ssa.UnOp, at *ssa.BasicBlock) b
 		}
 	}
 	return nSuccess > 0
+}
+
+// fieldPathOf splits the address of a (possibly nested: x.body.Destination) struct field into the
+// pointer it starts from and the field indexes from there.
+func fieldPathOf(addr ssa.Value) (base ssa.Value, path []int) {
+	for {
+		fa, ok := addr.(*ssa.FieldAddr)
+		if !ok {
+			return addr, path
+		}
+		path = append([]int{fa.Field}, path...)
+		addr = fa.X
+	}
+}
+
+func samePath(a, b []int) bool {
+	if len(a) != len(b) {
+		return false
+	}
+	for i := range a {
+		if a[i] != b[i] {
+			return false
+		}
+	}
+	return true
+}
+
+// fieldRequiredByValidator: ld loads an optional field (path) of an object, and the load is only
+// reached after an in-repository function that was handed the object — or that produced it —
+// returned its success constant, every success return of which knows the field non-nil:
+// directly (a dominating `x.F != nil`), or through another such function (parse → validate).
+func (n *nilAnalysis) fieldRequiredByValidator(ld *ssa.UnOp, at *ssa.BasicBlock) bool {
+	base, path := fieldPathOf(ld.X)
+	if len(path) == 0 {
+		return false
+	}
+	return n.fieldEstablished(n.resolveAt(base), path, factsWithCreation(at), ld.Parent(), 0)
+}
+
+func (n *nilAnalysis) fieldEstablished(base ssa.Value, path []int, facts []core.CondFact, fn *ssa.Function, depth int) bool {
+	if depth > 4 || base == nil {
+		return false
+	}
+	// directly: some load of the same field of the same object is known non-nil
+	for _, b := range fn.Blocks {
+		for _, in := range b.Instrs {
+			l2, isLd := in.(*ssa.UnOp)
+			if !isLd || l2.Op != token.MUL {
+				continue
+			}
+			b2, p2 := fieldPathOf(l2.X)
+			if len(p2) == 0 || !samePath(p2, path) {
+				continue
+			}
+			rb := n.resolveAt(b2)
+			if rb != base && !n.same(rb, base) && core.Resolve(rb) != core.Resolve(base) {
+				continue
+			}
+			if n.nonNilFactIn(l2, facts) {
+				return true
+			}
+		}
+	}
+	// through a function whose success is established here
+	for _, pc := range n.p.PassedValidatorsIn(facts) {
+		g := pc.Call.Call.StaticCallee()
+		rets := pc.SuccessReturns()
+		if len(rets) == 0 {
+			continue
+		}
+		// the object was an argument …
+		for i, a := range pc.Call.Call.Args {
+			if i >= len(g.Params) {
+				break
+			}
+			ra := n.resolveAt(a)
+			if ra != base && !n.same(ra, base) && core.Resolve(ra) != core.Resolve(base) {
+				continue
+			}
+			all := true
+			for _, r := range rets {
+				if !n.fieldEstablished(g.Params[i], path, core.FactsAt(r.Block()), g, depth+1) {
+					all = false
+					break
+				}
+			}
+			if all {
+				return true
+			}
+		}
+		// … or a result
+		if ex, isEx := base.(*ssa.Extract); isEx && ex.Tuple == ssa.Value(pc.Call) {
+			all := true
+			for _, ri := range rets {
+				r := ri.(*ssa.Return)
+				if ex.Index >= len(r.Results) || !n.fieldEstablished(n.resolveAt(r.Results[ex.Index]), path, core.FactsAt(r.Block()), g, depth+1) {
+					all = false
+					break
+				}
+			}
+			if all {
+				return true
+			}
+		}
+	}
+	return false
 }
 
 // nilDefaulted recognises the idiom
